@@ -528,6 +528,7 @@ func judge(c *core.Ctx, outs []*outcome) {
 	for i := range outs {
 		live[i] = true
 	}
+	nbad := 0
 	for len(live) > 0 {
 		var recs []any
 		owner := []int{}
@@ -561,5 +562,8 @@ func judge(c *core.Ctx, outs []*outcome) {
 		bad := owner[idx]
 		c.Violation("c04/"+inv, fmt.Sprintf("%s violated in %s at record %v", inv, outs[bad].Name, recs[idx]), map[string]any{"scenario": outs[bad].Name, "record": recs[idx], "trace": outs[bad].Records})
 		delete(live, bad)
+		if nbad++; nbad >= 4 {
+			return // enough: every further rejected run costs one more TLC run
+		}
 	}
 }
